@@ -124,6 +124,32 @@ def digest_tree(ns):
     return out
 
 
+def probe_arrays(ns):
+    """What the flow proposal DOES with fixed points: rescaling, its Jacobian, latent points and log q.  Computed by
+    the writer when it checkpoints and again by the resumed sampler; a restored reparameterisation / flow that
+    differs shows here even if no attribute digest is looked at."""
+    import numpy as np
+    out = {}
+    fp = getattr(ns, "_flow_proposal", None)
+    try:
+        if fp is None or not getattr(fp, "rescaling_set", False) or not getattr(fp, "training_count", 0) \
+                or getattr(fp, "flow", None) is None or getattr(fp.flow, "weights_file", None) is None \
+                or ns.live_points is None or hasattr(fp, "augment_dims"):
+            # (the augmented proposal draws its augment parameters at random inside rescale: not a function)
+            return out
+        pts = ns.live_points[:8].copy()
+        xp, lj = fp.rescale(pts)
+        names = [n for n in xp.dtype.names if n not in ("logP", "logL", "it")]
+        out["probe:rescale"] = np.array([[float(r[n]) for n in names] for r in xp])
+        out["probe:log_j"] = np.asarray(lj, dtype=float)
+        z, lq = fp.forward_pass(pts, rescale=True, compute_radius=False)
+        out["probe:z"] = np.asarray(z, dtype=float)
+        out["probe:log_q"] = np.asarray(lq, dtype=float)
+    except Exception as e:
+        out["probe:error"] = np.array([hash(type(e).__name__) % 1000], dtype=float)
+    return out
+
+
 def derived_arrays(ns):
     """Arrays that resume may recompute instead of restoring (compared to float32 accuracy)."""
     out = {}
@@ -142,6 +168,14 @@ def derived_arrays(ns):
 class Calls:
     n = 0            # points sent through the model's counted evaluation entry points in THIS process
     kill_at = None
+    signal_at = None  # send SIGTERM to this process at that call (nessai's handler checkpoints and exits)
+
+
+def _maybe_signal():
+    if Calls.signal_at is not None and Calls.n >= Calls.signal_at:
+        import signal
+        Calls.signal_at = None
+        os.kill(os.getpid(), signal.SIGTERM)      # handled by FlowSampler.safe_exit: checkpoint, then sys.exit
 
 
 def make_model():
@@ -175,12 +209,14 @@ def make_model():
             Calls.n += 1
             if Calls.kill_at is not None and Calls.n >= Calls.kill_at:
                 os._exit(KILL_CODE)
+            _maybe_signal()
             return super().evaluate_log_likelihood(x)
 
         def batch_evaluate_log_likelihood(self, x, **kw):
             Calls.n += int(x.size)
             if Calls.kill_at is not None and Calls.n >= Calls.kill_at:
                 os._exit(KILL_CODE)
+            _maybe_signal()
             return super().batch_evaluate_log_likelihood(x, **kw)
 
     return Gauss()
@@ -202,6 +238,7 @@ def meta_of(ns):
     fp = getattr(ns, "_flow_proposal", None)
     if fp is not None:
         m.update(uninformed=bool(ns.uninformed_sampling), populated=bool(fp.populated),
+                 populating=bool(getattr(fp, "populating", False)),
                  pool=len(fp.indices or []), training_count=int(fp.training_count),
                  proposal=type(ns.proposal).__name__)
     else:
@@ -224,6 +261,7 @@ def install_hook(root, snapdir, logpath, keep_snapshots, stop_after_first=False)
             rec["digest"] = digest_tree(data)
             import numpy as np
             arrs = derived_arrays(data)
+            arrs.update(probe_arrays(data))
         real(data, filename, module, save_existing=save_existing)
         if keep_snapshots:
             d = os.path.join(snapdir, str(n))
@@ -240,7 +278,8 @@ def install_hook(root, snapdir, logpath, keep_snapshots, stop_after_first=False)
     base.safe_file_dump = hooked
 
 
-def run_phase(root, kwargs, snapdir, logpath, keep, kill_at=None, pre_evals=0, set_max=None, stop_after_first=False):
+def run_phase(root, kwargs, snapdir, logpath, keep, kill_at=None, pre_evals=0, set_max=None, stop_after_first=False,
+              signal_at=None):
     """Fork body: (resume or start) and run the sampler to the end (or to the kill)."""
     def body(emit):
         model = make_model()
@@ -254,6 +293,7 @@ def run_phase(root, kwargs, snapdir, logpath, keep, kill_at=None, pre_evals=0, s
               "sampling_time": float(fs.ns.sampling_time.total_seconds())})
         install_hook(root, snapdir, logpath, keep, stop_after_first)
         Calls.kill_at = kill_at
+        Calls.signal_at = signal_at
         if set_max is not None:
             fs.ns.max_iteration = set_max
         import time as _time
@@ -278,6 +318,8 @@ def invariants(fs):
         out["log_q_shape"] = list(ns.training_samples.log_q.shape) if ns.training_samples.log_q is not None else None
         out["n_models"] = int(ns.proposal.flow.n_models)
         out["counts_total"] = int(sum(ns.sample_counts.values())) if isinstance(ns.sample_counts, dict) else None
+        pts = np.stack([s[n] for n in ns.model.names], axis=1)
+        out["n_distinct"] = int(len(np.unique(pts, axis=0)))
         out["state_n"] = int(ns.state._n) if hasattr(ns.state, "_n") else None
         out["finite_logZ"] = bool(np.isfinite(ns.log_evidence))
         out["iteration"] = int(ns.iteration)
@@ -288,6 +330,12 @@ def invariants(fs):
         out["iteration"] = int(ns.iteration)
         out["finalised"] = bool(ns.finalised)
         out["n_nested"] = int(len(nsamp))
+        # every accepted point was drawn once: nested samples and live points are pairwise distinct
+        allp = [nsamp] + ([ns.live_points] if ns.live_points is not None else [])
+        pts = np.concatenate([np.stack([a[n] for n in ns.model.names], axis=1) for a in allp if len(a)], axis=0)
+        out["n_points"] = int(len(pts))
+        out["n_distinct"] = int(len(np.unique(pts, axis=0)))
+        out["strictly_increasing"] = bool(np.all(np.diff(nsamp["logL"]) > 0)) if len(nsamp) > 1 else True
         out["n_insertion"] = int(len(ns.insertion_indices))
         out["n_logLs"] = int(len(ns.state.logLs))
         out["n_live"] = int(len(ns.live_points)) if ns.live_points is not None else 0
@@ -327,6 +375,7 @@ def resume_digest_phase(root, kwargs, snapdir, n):
         if os.path.exists(p):
             ref = np.load(p)
             now = derived_arrays(ns)
+            now.update(probe_arrays(ns))
             for k in ref.files:
                 a, b = ref[k], now.get(k)
                 ok = b is not None and a.shape == b.shape and bool(
@@ -335,8 +384,8 @@ def resume_digest_phase(root, kwargs, snapdir, n):
                 close[k] = {"close": ok, "max_abs": float(np.nanmax(np.abs(np.where(np.isfinite(a) & np.isfinite(b), a - b, 0))))
                             if b is not None and a.shape == b.shape and a.size else None, "rows": int(a.shape[0])}
                 if b is not None and a.shape == b.shape and not ok:
-                    rows = np.where(~np.isclose(np.where(np.isfinite(a), a, 0), np.where(np.isfinite(b), b, 0),
-                                                rtol=1e-4, atol=1e-4).all(axis=1))[0]
+                    cl = np.isclose(np.where(np.isfinite(a), a, 0), np.where(np.isfinite(b), b, 0), rtol=1e-4, atol=1e-4)
+                    rows = np.where(~(cl.all(axis=1) if cl.ndim > 1 else cl))[0]
                     close[k]["bad_rows"] = [int(rows.min()), int(rows.max()), int(rows.size)] if rows.size else None
             # an independent evaluation of the density table: flow by flow, in chunks of 3001 rows, through
             # log_prob_ith (not the code path resume uses)
@@ -413,13 +462,17 @@ def job_snapshots(work, kwargs, job, timeout):
     os.makedirs(snapdir)
     logpath = os.path.join(work, "log.jsonl")
     open(logpath, "w").close()
-    st, msgs = in_fork(run_phase(root, kwargs, snapdir, logpath, True), timeout)
+    st, msgs = in_fork(run_phase(root, kwargs, snapdir, logpath, True, signal_at=job.get("signal_at")), timeout)
     fin = first(msgs, "finished")
-    if fin is None:
-        return {"id": job["id"], "error": f"base run failed (status {st}): " + json.dumps(msgs)[-1500:]}
     metas = [json.loads(l) for l in open(logpath)]
-    out = {"id": job["id"], "kind": "snapshots", "n_checkpoints": len(metas), "final": fin, "cases": []}
-    for n in choose(metas, job.get("select", {})):
+    if fin is None and not (job.get("signal_at") and metas):
+        return {"id": job["id"], "error": f"base run failed (status {st}): " + json.dumps(msgs)[-1500:]}
+    out = {"id": job["id"], "kind": "snapshots", "n_checkpoints": len(metas), "final": fin, "cases": [],
+           "signal_at": job.get("signal_at"), "exit_status": st}
+    picks = [metas[-1]["n"]] if job.get("signal_at") else choose(metas, job.get("select", {}))
+    if job.get("select", {}).get("only") is not None:
+        picks = choose(metas, job["select"])
+    for n in picks:
         rec = json.load(open(os.path.join(snapdir, f"{n}.json")))
         restore(root, os.path.join(snapdir, str(n)))
         st2, m2 = in_fork(resume_digest_phase(root, kwargs, snapdir, n), timeout)
